@@ -425,7 +425,7 @@ func runC01(c *Ctx) {
 	for _, p := range c.Paths {
 		replayPathC01(c, c.NewHist("tlc-path"), p)
 	}
-	c01gen(c, "c01", c.Pick(192, 6000), 0)
+	c01gen(c, "c01", c.Pick(192, 3000), 0)
 	c01sliceKeys(c)
 	c01deepClone(c)
 }
